@@ -139,6 +139,7 @@ class Sim:
         self.probes = {}
         self.stats = {"faults_fired": {}, "reach": {}, "kinds": {}}
         self.between = None
+        self.on_step = {}  # variant name -> callable(k): run at the k-th interaction of the operation
         self.absent_seen = []
 
     # -- lookups --------------------------------------------------------------
@@ -186,7 +187,9 @@ class Sim:
         if base is None:
             base = 1000 * (self.opn + 1)
         env = self.env_for(v, tape, faults, base, box)
+        env.on_step = self.on_step.get(vn) if self.on_step else None
         out, raw = outcome_of(lambda: thunk(v, env))
+        env.on_step = None
         return {"out": out, "raw": raw, "env": env}
 
     def finish(self, vn, r):
